@@ -108,6 +108,8 @@ Case(ch) ==
     [steps |-> ch.steps,
      nodes |-> [j \in DOMAIN ch.states |-> ch.states[j].n],
      flags |-> [j \in DOMAIN ch.states |-> SetToSeq(ch.states[j].f)],
+     \* the local root of the last wrapper (absolute paths are an upward operation only where they can leave it)
+     lroot |-> IF LastW(ch) # REFUSED /\ "local" \in LastW(ch).f THEN <<LastW(ch).lr>> ELSE <<>>,
      expect |-> IF LastW(ch) = REFUSED THEN [mutate |-> "-", read |-> "-", upward |-> "-", parent |-> "-"]
                 ELSE Expect(LastW(ch))]
 Emit == (Len(chain.steps) < EmitFrom) \/ PrintT(<<"CASE", ToJson(Case(chain))>>)
